@@ -671,7 +671,11 @@ func describeBlob(blob []byte) string {
 	var descs []string
 	for _, i := range items {
 		if i.typ == 0x10000 && len(i.data) > 8 {
-			descs = append(descs, describeCMS(i.data[8:], content))
+			cmsDer := i.data[8:]
+			if d, ok := derOfBER(cmsDer); ok { // the model is told about the value; relic repacks BER forms itself
+				cmsDer = d
+			}
+			descs = append(descs, describeCMS(cmsDer, content))
 		}
 	}
 	if len(descs) == 0 {
